@@ -1633,3 +1633,81 @@ func Printable(v Val) string {
 	}
 	return Show(v)
 }
+
+// ------------------------------------------------------------------ incremental sessions (REPL model)
+
+// Session models one compiler + one VM fed with successive pieces: global bindings persist, a
+// rejected piece has no effect at all, a piece that fails at run time keeps the effects it had
+// before failing.
+type Session struct {
+	in    *Interp
+	scope *scope
+}
+
+func NewSession(budget int) *Session {
+	in := &Interp{Budget: budget}
+	in.globals = newEnv(nil)
+	return &Session{in: in, scope: &scope{vars: map[string]bool{}, consts: map[string]bool{}}}
+}
+
+// Piece feeds one piece. syntaxError marks a piece the parser must reject.
+func (s *Session) Piece(prog []*lang.N, syntaxError bool) (out Outcome) {
+	if syntaxError {
+		return Outcome{Rejected: true, RejectWhy: "syntax error"}
+	}
+	// static check against a copy of the accumulated scope
+	trial := &scope{vars: map[string]bool{}, consts: map[string]bool{}}
+	for k, v := range s.scope.vars {
+		trial.vars[k] = v
+	}
+	for k, v := range s.scope.consts {
+		trial.consts[k] = v
+	}
+	c := &checker{}
+	c.block(prog, trial, ctx{})
+	if c.why != "" {
+		return Outcome{Rejected: true, RejectWhy: c.why}
+	}
+	s.scope = trial
+	s.in.steps = 0
+	logStart := len(s.in.Log)
+	defer func() {
+		if r := recover(); r != nil {
+			if _, ok := r.(budgetExceeded); ok {
+				out = Outcome{NonTerm: true}
+				return
+			}
+			panic(r)
+		}
+	}()
+	v, _, rs := s.in.block(prog, s.in.globals, false)
+	out.Log = append([]string{}, s.in.Log[logStart:]...)
+	if s.in.unspec || (rs != nil && outsideClasses[rs.E.Class]) {
+		return Outcome{Unspec: true}
+	}
+	// names the piece declared but never assigned (it failed before reaching them) read as nil afterwards
+	for name := range trial.vars {
+		if _, ok := s.in.globals.vars[name]; !ok {
+			s.in.globals.vars[name] = &Cell{Const: trial.consts[name]}
+		}
+	}
+	if rs != nil {
+		out.Err = rs.E
+		return out
+	}
+	out.Val = Show(v)
+	out.Type = TypeOf(v)
+	return out
+}
+
+// Globals returns the current global values (functions omitted).
+func (s *Session) Globals() map[string]string {
+	out := map[string]string{}
+	for k, c := range s.in.globals.vars {
+		if _, isFn := c.V.(*Fn); isFn {
+			continue
+		}
+		out[k] = Show(c.V)
+	}
+	return out
+}
